@@ -1,16 +1,16 @@
 """Per-property claims (source of MANIFEST.json; tools/gen_manifest.py renders it)."""
 HOOK_COMMITS = []
 ENGINES = [
-    {"name": "lean-model", "path": "lean/", "serves_properties": ["C01", "C02", "C03", "C04", "C05", "C06", "C07", "C09", "C13", "C18", "C11", "C12", "C16", "C17", "C20"],
+    {"name": "lean-model", "path": "lean/", "serves_properties": ["C01", "C02", "C03", "C04", "C05", "C06", "C07", "C08", "C09", "C13", "C18", "C11", "C12", "C16", "C17", "C20"],
      "kind_free_text": "Lean 4 library Dbus (Spec, Model, Proofs, Props) + compiled line-protocol driver dbus-model"},
-    {"name": "tabulator", "path": "gen/", "serves_properties": ["C01", "C02", "C03", "C04", "C05", "C06", "C07", "C09", "C13", "C18", "C11", "C12", "C16", "C17", "C20"],
+    {"name": "tabulator", "path": "gen/", "serves_properties": ["C01", "C02", "C03", "C04", "C05", "C06", "C07", "C08", "C09", "C13", "C18", "C11", "C12", "C16", "C17", "C20"],
      "kind_free_text": "C translation units that #include repo sources and print finite tables; rendered to lean/Dbus/Generated"},
-    {"name": "h-lib", "path": "harness/lib/", "serves_properties": ["C01", "C02", "C03", "C04", "C05", "C06", "C07", "C09", "C13", "C18", "C11", "C12", "C16", "C17", "C20"],
+    {"name": "h-lib", "path": "harness/lib/", "serves_properties": ["C01", "C02", "C03", "C04", "C05", "C06", "C07", "C08", "C09", "C13", "C18", "C11", "C12", "C16", "C17", "C20"],
      "kind_free_text": "in-process C harnesses linked against the ASan/UBSan build of the working tree"},
 ]
 PENDING = "not implemented yet in this round (planned, see DESIGN.md §4/§7); no check is claimed"
 NOT_APPLICABLE = {p: PENDING for p in
-                  ["C08", "C10", "C14", "C15",
+                  ["C10", "C14", "C15",
                    "C19"]}
 BUS_TIE = ("The bus model (lean/Dbus/Model/Bus: dispatch, driver methods, registry, match delivery, policy gate, pending replies, "
            "disconnect cleanup; method table regenerated from bus/driver.c) is tied to the real dbus-daemon (ASan/UBSan build of the working "
@@ -18,6 +18,30 @@ BUS_TIE = ("The bus model (lean/Dbus/Model/Bus: dispatch, driver methods, regist
            "connection closed by the bus must equal what the model's step emits; disagreements are classified by a trace oracle "
            "written independently of the model. ")
 CHECKS = {
+    "C08": {
+        "text": "Proved in Lean over a model of the server side of dbus/dbus-auth.c (all three mechanisms, the per-state command handlers, line splitting, hex "
+                "decoding, the failure counter, _dbus_auth_do_work's buffer limits) and of the identity gate in _dbus_transport_try_to_authenticate, for every "
+                "environment (socket credentials, permitted mechanisms, user database, keyring, server owner) and every history of bytes arriving in any "
+                "chunking, replies drained in any portions, and environment choices (cookie id, random challenge): whenever the conversation is past OK the "
+                "recorded mechanism is permitted and the authorized identity is exactly what it establishes — EXTERNAL the socket's uid/pid/groups/label, "
+                "DBUS_COOKIE_SHA1 the server owner's uid after the SHA-1 of challenge:client-challenge:cookie, ANONYMOUS no user "
+                "(established_in_every_reachable_state, external_identity_is_the_sockets, cookie_needs_the_correct_response, cookie_identity_is_the_owners, "
+                "anonymous_only_where_permitted); before OK nothing is authorized and CANCEL/ERROR forget it (nothing_authorized_before_ok, "
+                "cancel_forgets_identity); Authenticated is entered only by BEGIN in WaitingForBegin and an identity without a user passes the transport's gate "
+                "only with allow_anonymous (authenticated_only_through_begin, anonymous_identity_gate); every reply and successor state is one the specification's "
+                "state machine (Dbus.Spec.Auth.specAllows, written from the specification) permits (conforms_to_specification); at most six REJECTED are ever "
+                "sent (failures_bounded, gives_up_after_six, rejected_counts_failures), final states are final, at most 16 KiB of handshake input is buffered "
+                "(buffers_bounded, overflow_gives_up), and the bytes handed on as message data are exactly those after the BEGIN line, in whatever chunks the "
+                "stream arrived (nothing_before_begin_is_message_data). The model is tied to the code by (1) an adaptive client driving a real server-side DBusAuth "
+                "in-process (harness/lib/h_auth.c includes dbus-auth.c) with the whole internal state compared after every operation, plus SHA-1 (dbus-sha.c vs a "
+                "FIPS 180 transcription in Lean), _dbus_is_a_number and hex decoding at unit level; (2) real sockets against dbus-daemon under five auth "
+                "configurations and three peer uids: replies, acceptance by the gate, the uid the bus then reports, bytes after BEGIN. A trace oracle written "
+                "independently of the model states the property on the implementation's own trace. F19 (assertion abort on a blank followed by CR/LF in a "
+                "handshake line) was found by this check and repaired in /repo.",
+        "note": "Partial: kernel credentials, the user database and the keyring file are parameters of the model (the keyring code runs in the harness, only its "
+                "result enters the model); SHA-1 is specified by a Lean transcription of FIPS 180, not proved about; OOM paths are C14; auth_timeout and the "
+                "limit on incomplete connections are C10.",
+    },
     "C03": {
         "text": "Proved in Lean for every bus state, sender and message (any header a client can put on the wire): every message the bus "
                 "hands to any connection while processing it has header fields 1..9 only and carries as sender org.freedesktop.DBus or the "
